@@ -9,6 +9,10 @@ class DeclaredError(Exception):
     pass
 
 
+class SubDeclaredError(DeclaredError):
+    """a proper subclass of the class the payload declares: it must be captured like the class itself"""
+
+
 class P:
     """a payload implementing the payload protocol"""
 
@@ -27,7 +31,7 @@ class P:
 
 def work(payload):
     if payload.bad:
-        raise DeclaredError(f'bad {payload.i}')
+        raise (SubDeclaredError if payload.i % 2 else DeclaredError)(f'bad {payload.i}')
     return payload.i * 10
 
 
@@ -168,7 +172,7 @@ def make_pmap(spec):
             parprocmod.multiprocessing = real_mp
 
         def key(r):
-            return (r.payload.i, r.outcome, type(r.exception).__name__ if r.exception is not None else None)
+            return (r.payload.i, r.outcome, ('DeclaredError' if isinstance(r.exception, DeclaredError) else type(r.exception).__name__) if r.exception is not None else None)
         gk, sk = sorted(map(key, got)), sorted(map(key, seq))
         want = sorted((p.i, None if p.bad else p.i * 10, 'DeclaredError' if p.bad else None) for p in payloads)
         if gk != want:
@@ -212,7 +216,8 @@ def native_checks():
     from ..runner import PY, env_for_children
     code = ("import sys\nfrom vt.props.c18 import P, work\nfrom tatsu.parproc.parproc import parproc\n"
             "ps=[P(i, i in (1,4)) for i in range(6)]\n"
-            "got=sorted((r.payload.i, r.outcome, type(r.exception).__name__ if r.exception is not None else None) for r in parproc(work, ps, max_workers=2))\n"
+            "from vt.props.c18 import DeclaredError\n"
+            "got=sorted((r.payload.i, r.outcome, ('DeclaredError' if isinstance(r.exception, DeclaredError) else type(r.exception).__name__) if r.exception is not None else None) for r in parproc(work, ps, max_workers=2))\n"
             "want=sorted((p.i, None if p.bad else p.i*10, 'DeclaredError' if p.bad else None) for p in ps)\n"
             "print('REAL', got==want, got)\n")
     try:
